@@ -210,9 +210,9 @@ def impl_parse(text, iei):
 
 
 PATTERNS = {
-    ("xmin", True): r"xmin ?= ?-?([\d.]+(?:[eE][-+]?\d+)?)\s*$",
-    ("xmax", False): r"xmax ?= ?([\d.]+(?:[eE][-+]?\d+)?)\s*$",
-    ("number", True): r"number ?= ?-?([\d.]+(?:[eE][-+]?\d+)?)\s*$",
+    ("xmin", True): r"xmin ?= ?(-?[\d.]+(?:[eE][-+]?\d+)?)\s*$",
+    ("xmax", True): r"xmax ?= ?(-?[\d.]+(?:[eE][-+]?\d+)?)\s*$",
+    ("number", True): r"number ?= ?(-?[\d.]+(?:[eE][-+]?\d+)?)\s*$",
 }
 
 
@@ -298,7 +298,8 @@ def impl(c):
         r = ioops.open_text(ioops.spec_write(data, "short"), True, dup=c["mode"])
         return ("ok", [t["name"] for t in r[1]["tiers"]]) if r[0] == "ok" else r
     if op == "u_num":
-        pat = c["kw"] + r" ?= ?" + ("-?" if c["neg"] else "") + r"([\d.]+(?:[eE][-+]?\d+)?)\s*$"
+        # the numeric rows of _parseNormalTextgrid after fix A30: the optional sign is inside the captured group
+        pat = c["kw"] + r" ?= ?(" + ("-?" if c["neg"] else "") + r"[\d.]+(?:[eE][-+]?\d+)?)\s*$"
         if c.get("ascii"):
             # the model reads \d as the ASCII digits (numerals are ASCII) but \s as Python's Unicode white space, like
             # the code's pattern without re.ASCII; re.ASCII would narrow \s as well (\x1c is white space only for str)
